@@ -147,3 +147,23 @@ func BigBelow(max *big.Int) *rapid.Generator[*big.Int] {
 		return v.Mod(v, max)
 	})
 }
+
+// Uniform draws an (almost exactly) uniform integer in [0,n) from fair coin flips. rapid's integer
+// generators are deliberately biased toward small values and range ends (IntRange(0,24) yields 0 about
+// 11% of the time), which makes "rare" events far too frequent; Bool() is a fair coin.
+func Uniform(t *rapid.T, label string, n int) int {
+	if n <= 1 {
+		return 0
+	}
+	v := 0
+	for bits := 0; (1 << uint(bits)) < n*16; bits++ {
+		v <<= 1
+		if rapid.Bool().Draw(t, label) {
+			v |= 1
+		}
+	}
+	return v % n
+}
+
+// OneIn is true with probability about 1/n (and shrinks to false).
+func OneIn(t *rapid.T, label string, n int) bool { return Uniform(t, label, n) == n-1 }
